@@ -1489,6 +1489,10 @@ class SVG:
             resolve_entities=False,
         )
         tree = etree.fromstring(string.encode("utf-8"), parser)
+        # Entity references are left unresolved on purpose. Drop them: a reference
+        # still points into the DTD of the parsed document and does not survive
+        # being moved into a new tree (see _copy_new_nsmap)
+        etree.strip_tags(tree, etree.Entity)
         tree = _fix_xlink_ns(tree)
         return cls(tree)
 
